@@ -182,3 +182,204 @@ class G:
 
 def build(items) -> bytes:
     return asm.assemble(items)
+
+
+# ---------------------------------------------------------------------------
+# F6: call trees and creations;  F7: loops
+# ---------------------------------------------------------------------------
+A_REPORT, A_MUTATE, A_SHORT, A_NEST, A_EMPTY = 0xA1A1, 0xB1B1, 0xC1C1, 0xD1D1, 0xE1E1
+CALL_OPS = {"CALL": 7, "CALLCODE": 7, "DELEGATECALL": 6, "STATICCALL": 6}
+
+
+def callee_report():
+    """returns CALLER, ORIGIN, ADDRESS, CALLVALUE, CODESIZE, calldata word 0, CALLDATASIZE (7 words)"""
+    out = []
+    for k, op in enumerate(["CALLER", "ORIGIN", "ADDRESS", "CALLVALUE", "CODESIZE"]):
+        out += [op, ("PUSH", 32 * k), "MSTORE"]
+    out += ["PUSH0", "CALLDATALOAD", ("PUSH", 0xA0), "MSTORE", "CALLDATASIZE", ("PUSH", 0xC0), "MSTORE",
+            ("PUSH", 0xE0), "PUSH0", "RETURN"]
+    return out
+
+
+def callee_mutate():
+    """storage[1]=w0, tstorage[1]=w0, LOG1; then by w1: 1 revert(w0) / 2 INVALID / 3 OOB returndatacopy / else return(w0, 40 bytes)
+    In a static frame the SSTORE halts it (write protection)."""
+    return [
+        "PUSH0", "CALLDATALOAD", "DUP1", ("PUSH", 1), "SSTORE", "DUP1", ("PUSH", 1), "TSTORE", "DUP1", "PUSH0", "MSTORE",
+        ("PUSH", 0x77), ("PUSH", 32), "PUSH0", "LOG1",
+        ("PUSH", 32), "CALLDATALOAD",
+        "DUP1", ("PUSH", 1), "EQ", ("PUSHL", "rev"), "JUMPI",
+        "DUP1", ("PUSH", 2), "EQ", ("PUSHL", "inv"), "JUMPI",
+        "DUP1", ("PUSH", 3), "EQ", ("PUSHL", "oob"), "JUMPI",
+        ("PUSH", 40), "PUSH0", "RETURN",
+        ("LABEL", "rev"), ("PUSH", 32), "PUSH0", "REVERT",
+        ("LABEL", "inv"), "INVALID",
+        ("LABEL", "oob"), ("PUSH", 1), "PUSH0", "PUSH0", "RETURNDATACOPY", "STOP",
+    ]
+
+
+def callee_readonly_mutate():
+    """like mutate but without state writes (usable under STATICCALL): by w1 revert/invalid/return"""
+    return [
+        "PUSH0", "CALLDATALOAD", "PUSH0", "MSTORE", ("PUSH", 1), "SLOAD", ("PUSH", 32), "MSTORE",
+        ("PUSH", 32), "CALLDATALOAD",
+        "DUP1", ("PUSH", 1), "EQ", ("PUSHL", "rev"), "JUMPI",
+        "DUP1", ("PUSH", 2), "EQ", ("PUSHL", "inv"), "JUMPI",
+        ("PUSH", 64), "PUSH0", "RETURN",
+        ("LABEL", "rev"), ("PUSH", 33), "PUSH0", "REVERT",
+        ("LABEL", "inv"), "INVALID",
+    ]
+
+
+def callee_short(k):
+    return ["PUSH0", "CALLDATALOAD", "PUSH0", "MSTORE", ("PUSH", k), "PUSH0", "RETURN"]
+
+
+def call_site(op, addr, value_items, in_off, in_size, out_off, out_size):
+    items = [("PUSH", out_size), ("PUSH", out_off), ("PUSH", in_size), ("PUSH", in_off)]
+    if op in ("CALL", "CALLCODE"):
+        items += list(value_items)
+    items += [("PUSH", addr, 20), "GAS", op]
+    return items
+
+
+def callee_nest(op, inner_addr, value_items):
+    """forwards its calldata to inner_addr with call kind `op`, writes storage[2] before and after; returns
+    [flag, first 64 bytes of returndata area, SLOAD(1), SLOAD(2)]; reverts everything if calldata word 2 == 9"""
+    it = ["CALLDATASIZE", "PUSH0", "PUSH0", "CALLDATACOPY"]
+    it += [("PUSH", 5), ("PUSH", 2), "SSTORE"] if op != "STATIC-SAFE" else []
+    it += call_site(op if op != "STATIC-SAFE" else "STATICCALL", inner_addr, value_items, 0, 64, 0x100, 64)
+    it += [("PUSH", 0x80), "MSTORE"]
+    it += [("PUSH", 0x100), "MLOAD", ("PUSH", 0xA0), "MSTORE", ("PUSH", 0x120), "MLOAD", ("PUSH", 0xC0), "MSTORE",
+           ("PUSH", 1), "SLOAD", ("PUSH", 0xE0), "MSTORE"]
+    it += [("PUSH", 64), "CALLDATALOAD", ("PUSH", 9), "EQ", ("PUSHL", "rv"), "JUMPI",
+           ("PUSH", 0x80), ("PUSH", 0x80), "RETURN", ("LABEL", "rv"), ("PUSH", 0x20), ("PUSH", 0x80), "REVERT"]
+    return it
+
+
+class G6(G):
+    def value_items(self):
+        r = self.r
+        k = r.random()
+        if k < 0.4:
+            return [("PUSH", 0)]
+        if k < 0.6:
+            return [("PUSH", r.choice([1, 2, 1000]))]
+        self.features.add("symvalue")
+        return [("PUSH", 4 + 32 * r.randrange(self.ncd)), "CALLDATALOAD"] + (
+            [("PUSH", 0xFFFF), "AND"] if r.random() < 0.5 else [])
+
+    def f6_calls(self):
+        """-> (main items, {addr: items}) : 1-3 call sites over the callee pool + final state probes"""
+        r = self.r
+        contracts = {A_REPORT: callee_report(), A_MUTATE: callee_mutate(), A_SHORT: callee_short(r.choice([0, 1, 31, 33, 64]))}
+        nest_kind = r.choice(["CALL", "CALLCODE", "DELEGATECALL", "STATICCALL", "STATIC-SAFE"])
+        inner = A_MUTATE if nest_kind != "STATIC-SAFE" else 0xF1F1
+        contracts[0xF1F1] = callee_readonly_mutate()
+        contracts[A_NEST] = callee_nest(nest_kind, inner, self.value_items() if r.random() < 0.5 else [("PUSH", 0)])
+        self.features.add(f"nest-{nest_kind}")
+        main = []
+        # args: word0 = cd0, word1 = cd1 (selects callee outcome), word2 = cd2 if present else 0
+        for k in range(min(self.ncd, 3)):
+            main += [("PUSH", 4 + 32 * k), "CALLDATALOAD", ("PUSH", 0x100 + 32 * k), "MSTORE"]
+        # own state before the calls
+        main += [("PUSH", 0x11), ("PUSH", 1), "SSTORE", ("PUSH", 0x22), ("PUSH", 1), "TSTORE"]
+        n = r.randint(1, 3)
+        for k in range(n):
+            op = r.choice(list(CALL_OPS))
+            addr = r.choice([A_REPORT, A_MUTATE, A_MUTATE, A_SHORT, A_NEST, A_NEST, A_EMPTY])
+            self.features.add(op)
+            out_off, out_size = 0x200 + 0x80 * k, r.choice([0, 32, 64, 0x60])
+            # dirty the output window first
+            main += [("PUSH", (0xD1D1D1D1 << 224) | k, 32), ("PUSH", out_off), "MSTORE",
+                     ("PUSH", 4), "CALLDATALOAD", "NOT", ("PUSH", out_off + 32), "MSTORE"]
+            main += call_site(op, addr, self.value_items(), 0x100, r.choice([0, 32, 64, 96]), out_off, out_size)
+            main += [("PUSH", 0x400 + 32 * k), "MSTORE", "RETURNDATASIZE", ("PUSH", 0x480 + 32 * k), "MSTORE"]
+            if r.random() < 0.4:
+                self.features.add("RETURNDATACOPY")
+                main += [("PUSH", r.choice([0, 1, 32])), ("PUSH", r.choice([0, 0, 8])), ("PUSH", 0x500 + 64 * k),
+                         "RETURNDATACOPY"]
+        main += self.final_probes([progs_this(), A_MUTATE, A_NEST, A_REPORT])
+        main += [("PUSH", 0x700), ("PUSH", 0x100), "RETURN"]
+        return main, contracts
+
+    def final_probes(self, addrs):
+        it = [("PUSH", 1), "SLOAD", ("PUSH", 0x600), "MSTORE", ("PUSH", 1), "TLOAD", ("PUSH", 0x620), "MSTORE",
+              ("PUSH", 2), "SLOAD", ("PUSH", 0x640), "MSTORE"]
+        for k, a in enumerate(addrs):
+            it += [("PUSH", a, 20), "BALANCE", ("PUSH", 0x660 + 32 * k), "MSTORE"]
+        it += ["CALLER", "BALANCE", ("PUSH", 0x660 + 32 * len(addrs)), "MSTORE"]
+        return it
+
+    def f6_create(self):
+        """CREATE / CREATE2 of a child whose constructor may fail, then calls into it"""
+        r = self.r
+        op = r.choice(["CREATE", "CREATE2"])
+        self.features.add(op)
+        ctor_kind = r.choice(["ok", "revert-if-zero-value", "invalid-if-value", "store"])
+        self.features.add(f"ctor-{ctor_kind}")
+        from lib import asm
+
+        runtime = asm.assemble(callee_report())
+        ctor = []
+        if ctor_kind == "revert-if-zero-value":
+            ctor = ["CALLVALUE", ("PUSHL", "okc"), "JUMPI", ("PUSH", 0xBAD), "PUSH0", "MSTORE", ("PUSH", 32), "PUSH0",
+                    "REVERT", ("LABEL", "okc")]
+        elif ctor_kind == "invalid-if-value":
+            ctor = ["CALLVALUE", "ISZERO", ("PUSHL", "okc"), "JUMPI", "INVALID", ("LABEL", "okc")]
+        elif ctor_kind == "store":
+            ctor = ["CALLVALUE", ("PUSH", 3), "SSTORE", "CALLER", ("PUSH", 4), "SSTORE"]
+        init = asm.creation_code(runtime, ctor)
+        main = [("PUSH", 0x11), ("PUSH", 1), "SSTORE"]
+        main += [("PUSHSIZE", "init_s", "init_e"), ("PUSHM", "init_s"), ("PUSH", 0x100), "CODECOPY"]
+        if op == "CREATE2":
+            main += [("PUSH", r.choice([0, 1, 0xABCDEF]))]
+        main += [("PUSH", len(init)), ("PUSH", 0x100)] + self.value_items() + [op]
+        # stack: new address (or 0)
+        main += ["DUP1", "ISZERO", "ISZERO", ("PUSH", 0x400), "MSTORE", "RETURNDATASIZE", ("PUSH", 0x420), "MSTORE",
+                 "DUP1", "EXTCODESIZE", ("PUSH", 0x440), "MSTORE", "DUP1", "BALANCE", ("PUSH", 0x460), "MSTORE"]
+        # call the child (address on the stack) with 32 bytes of calldata
+        main += [("PUSH", 4), "CALLDATALOAD", ("PUSH", 0x80), "MSTORE"]
+        callop = r.choice(["CALL", "STATICCALL", "DELEGATECALL"])
+        self.features.add(callop)
+        main += ["DUP1", ("PUSH", 0xE0), "SWAP1", ("PUSH", 0x200), "SWAP1", ("PUSH", 32), "SWAP1", ("PUSH", 0x80), "SWAP1"]
+        if callop == "CALL":
+            main += [("PUSH", 0), "SWAP1"]
+        main += ["GAS", callop, ("PUSH", 0x480), "MSTORE", "POP"]
+        main += ["SELFBALANCE", ("PUSH", 0x4A0), "MSTORE", ("PUSH", 1), "SLOAD", ("PUSH", 0x4C0), "MSTORE",
+                 ("PUSH", 3), "SLOAD", ("PUSH", 0x4E0), "MSTORE"]
+        main += [("PUSH", 0x400), ("PUSH", 0x200), "RETURN", ("MARK", "init_s"), init, ("MARK", "init_e")]
+        return main, {}
+
+    # ---- F7 loops -----------------------------------------------------------
+    def f7_loop(self):
+        r = self.r
+        kind = r.choice(["concrete", "concrete", "symbolic", "head0-jumpi", "head0-jump", "nested"])
+        self.features.add(f"loop-{kind}")
+        n = r.choice([1, 2, 3, 4, 5, 8])
+        if kind in ("head0-jumpi", "head0-jump"):
+            # loop head is the very first byte; counter in memory word 0, accumulator in word 1
+            body = [("LABEL", "top"), "PUSH0", "MLOAD", ("PUSH", 1), "ADD", "DUP1", "PUSH0", "MSTORE",
+                    ("PUSH", 32), "MLOAD", ("PUSH", 3), "MUL", ("PUSH", 4), "CALLDATALOAD", "ADD", ("PUSH", 32), "MSTORE"]
+            if kind == "head0-jumpi":
+                body += [("PUSH", n), "GT", "PUSH0", "JUMPI"]  # n > i -> jump to pc 0
+            else:
+                body += [("PUSH", n), "GT", "ISZERO", ("PUSHL", "exit"), "JUMPI", "PUSH0", "JUMP", ("LABEL", "exit")]
+            return body + [("PUSH", 64), "PUSH0", "RETURN"], {}
+        bound = [("PUSH", n)] if kind != "symbolic" else [("PUSH", 36), "CALLDATALOAD", ("PUSH", 7), "AND"]
+        # stack: acc i
+        it = [("PUSH", 4), "CALLDATALOAD", "PUSH0"]  # acc=cd0, i=0
+        it += [("LABEL", "top")] + ["DUP1"] + bound + ["GT", "ISZERO", ("PUSHL", "exit"), "JUMPI"]  # while bound > i
+        it += ["SWAP1", ("PUSH", 3), "MUL", ("PUSH", 1), "ADD", "SWAP1"]  # acc = acc*3+1
+        if kind == "nested":
+            it += ["PUSH0", ("LABEL", "in"), "DUP1", ("PUSH", 2), "GT", "ISZERO", ("PUSHL", "inx"), "JUMPI",
+                   ("PUSH", 1), "ADD", "SWAP2", ("PUSH", 7), "ADD", "SWAP2", ("PUSHL", "in"), "JUMP", ("LABEL", "inx"), "POP"]
+        it += [("PUSH", 1), "ADD", ("PUSHL", "top"), "JUMP", ("LABEL", "exit")]
+        it += ["POP", "PUSH0", "MSTORE", ("PUSH", 32), "PUSH0", "RETURN"]
+        return it, {}
+
+
+def progs_this():
+    from lib import progs
+
+    return progs.THIS
